@@ -61,11 +61,13 @@ func lnRoutes() []map[string]any {
 		// through a pooled scratch chunk - then fall-through: the consumer reads the whole stream
 		{"match": []map[string]any{vhm(4, "Y", "wrapfall")}, "handle": []map[string]any{{"handler": "verif_h", "k": "mark", "l": 1, "r": 7}, {"handler": "verif_h", "k": "wrap"}}},
 		{"match": []map[string]any{vhm(40, "N", "wrapfall")}, "handle": []map[string]any{{"handler": "verif_h", "k": "term"}}},
-		// "subfall": a matched route whose handler is the real subroute handler; its only inner route looks at 12 bytes and
-		// says no, so the subroute hands the connection back (its `next`), the remaining routes say no, fall-through - for
-		// EVERY such connection, not only the first one the handler sees
-		{"match": []map[string]any{vhm(4, "Y", "subfall")}, "handle": []map[string]any{{"handler": "verif_h", "k": "mark", "l": 1, "r": 8},
-			{"handler": "subroute", "routes": []map[string]any{{"match": []map[string]any{vhm(12, "N", "subfall")}, "handle": []map[string]any{{"handler": "verif_h", "k": "term"}}}}}}},
+		// "subfall" / "subterm": a matched route whose handler is the real subroute handler (ONE instance for both roles); its
+		// only inner route looks at 12 bytes and says no, so the subroute hands the connection back (its `next`): the outer
+		// list goes on - a later route consumes "subterm" connections with a terminal handler, "subfall" connections fall
+		// through to the wrapped listener. What the outer list does after the subroute is each connection's own business.
+		{"match": []map[string]any{vhm(4, "Y", "sub*")}, "handle": []map[string]any{{"handler": "verif_h", "k": "mark", "l": 1, "r": 8},
+			{"handler": "subroute", "routes": []map[string]any{{"match": []map[string]any{vhm(12, "N", "sub*")}, "handle": []map[string]any{{"handler": "verif_h", "k": "term"}}}}}}},
+		{"match": []map[string]any{vhm(4, "Y", "subterm")}, "handle": []map[string]any{{"handler": "verif_h", "k": "mark", "l": 1, "r": 10}, {"handler": "verif_h", "k": "term", "l": 1, "r": 10}}},
 		// "thrfall": a matched route whose handler is the real throttle handler (generous limits), then fall-through: the
 		// wrapped listener's consumer reads the stream THROUGH the throttled connection, after layer4 has let go of it
 		{"match": []map[string]any{vhm(4, "Y", "thrfall")}, "handle": []map[string]any{{"handler": "verif_h", "k": "mark", "l": 1, "r": 9},
@@ -124,7 +126,7 @@ func runListener(sc lnScen, idx int, seed int64) (*lnTrace, error) {
 	for i, kind := range sc.Mix {
 		id := fmt.Sprintf("k%d", i+1)
 		slen := sc.Slen
-		if (kind == "term" || kind == "eatfall" || kind == "tlsfall" || kind == "hold" || kind == "subfall" || kind == "thrfall") && slen < 16 {
+		if (kind == "term" || kind == "eatfall" || kind == "tlsfall" || kind == "hold" || kind == "subfall" || kind == "subterm" || kind == "thrfall") && slen < 16 {
 			slen = 16
 		}
 		if kind == "wrapfall" && slen < 300 {
@@ -206,6 +208,9 @@ func runListener(sc lnScen, idx int, seed int64) (*lnTrace, error) {
 		}
 		if k == "wrapfall" || k == "subfall" || k == "thrfall" {
 			k = "fall"
+		}
+		if k == "subterm" {
+			k = "term"
 		}
 		if k == "fall" && ci.slen < 8 {
 			k = "rej" // the stream ends before the 8 bytes the first route asks for: matching fails
